@@ -25,7 +25,8 @@ REQUIRED = {"interactions_resolved": 5000, "dihedrals_resolved": 2000, "wildcard
             "multi_term_expansions": 300, "instances_checked": 2000, "expected_failures": 50, "macros_substituted": 200,
             "nonbond_pairs_checked": 3000, "explicit_overrides": 300, "c6c12_conversions": 500, "masks_seen": 14,
             "opls_cases": 30, "multi_line_molecules": 100, "other_moleculetype_instances": 200,
-            "macros_with_function_type": 100, "macros_in_pairs": 100, "macros_defined_twice": 30}
+            "macros_with_function_type": 100, "macros_in_pairs": 100, "macros_defined_twice": 30,
+            "generated_pairs_checked_for_symmetry": 500}
 TYPES = ["ta", "tb", "tc", "td", "te"]
 
 
@@ -426,4 +427,37 @@ def run_case(cid, rng, workdir):
         else:
             if abs(s - src[0]) > 1e-12 or abs(e - src[1]) > 1e-12:
                 violation(res, what, "%s-%s: (%r, %r), expected %s" % (a, b, s, e, src), w)
+    # ---- symmetric in the pair: the table does not depend on which of the two types is defined first -----------
+    if case["genpairs"] == "yes":
+        tl = case["text"].split("\n")
+        i0 = tl.index("[ atomtypes ]") + 1
+        tl[i0:i0 + len(TYPES)] = tl[i0:i0 + len(TYPES)][::-1]
+        path2 = os.path.join(workdir, "c9_swapped.top")
+        with open(path2, "w") as fh:
+            fh.write("\n".join(tl))
+        try:
+            top2 = Topology.from_gmx_topfile(name="x", path=path2)
+            top2.preprocess()
+            nb2 = top2.nonbond_params
+        except Exception as err:      # noqa
+            if type(err).__name__ == "CaseTimeout":
+                raise
+            violation(res, "atomtype-order-changes-outcome", "with the [ atomtypes ] lines in reverse order: %s: %s" %
+                      (type(err).__name__, str(err)[:150]), w)
+            return res
+        bump(res, "tables_compared_with_atomtypes_reordered")
+        for a, b in itertools.combinations(TYPES, 2):
+            pair = frozenset((a, b))
+            x, y = nb.get(pair), nb2.get(pair)
+            if (x is None) != (y is None):
+                violation(res, "pair-parameters-not-symmetric", "%s-%s present=%s, with the types defined in the other "
+                          "order present=%s" % (a, b, x is not None, y is not None), w)
+                break
+            if x is None:
+                continue
+            bump(res, "generated_pairs_checked_for_symmetry")
+            if any(abs(x[k] - y[k]) > 1e-9 * max(abs(x[k]), abs(y[k]), 1e-300) for k in ("nb1", "nb2")):
+                violation(res, "pair-parameters-not-symmetric", "%s-%s: (%r, %r), but (%r, %r) when the two atom types are "
+                          "defined in the other order (combination rule %d)" % (a, b, x["nb1"], x["nb2"], y["nb1"], y["nb2"], comb), w)
+                break
     return res
